@@ -143,6 +143,21 @@ def kind_dispatch(fn: ast.AST, module_assigns: dict, kinds: list[str], key: str 
     return out
 
 
+
+def _flat_operands(fn: ast.AST) -> tuple[str, str, str]:
+    """(lhs row, rhs row, rhs constant) locals of a flattener visitor: the rhs row is popped first from
+    self.operand_expr_stack, the lhs row second; the constant is <rhs>[self.get_constant_index()]"""
+    pops = [s_.targets[0].id for s_ in walk_local(fn) if isinstance(s_, ast.Assign) and len(s_.targets) == 1 and isinstance(s_.targets[0], ast.Name) and unparse(s_.value) == "self.operand_expr_stack.pop()"]
+    pops.sort(key=lambda nm: next(s_.lineno for s_ in walk_local(fn) if isinstance(s_, ast.Assign) and isinstance(s_.targets[0], ast.Name) and s_.targets[0].id == nm))
+    if len(pops) != 2:
+        raise AnalysisError(f"the two operand rows popped from self.operand_expr_stack were not found ({pops})")
+    rhs, lhs = pops
+    consts = [s_.targets[0].id for s_ in walk_local(fn) if isinstance(s_, ast.Assign) and len(s_.targets) == 1 and isinstance(s_.targets[0], ast.Name) and unparse(s_.value) == f"{rhs}[self.get_constant_index()]"]
+    if len(consts) != 1:
+        raise AnalysisError(f"the constant of the right operand ({rhs}[self.get_constant_index()]) is not bound to one local")
+    return lhs, rhs, consts[0]
+
+
 def check(idx: Index, rep: Report, tier: str) -> str:
     enum = idx.cls(AE, "AffineBinaryOpKind")
     kinds = [n for n in enum.class_assigns() if n[0].isupper()]
@@ -300,7 +315,8 @@ def check(idx: Index, rep: Report, tier: str) -> str:
         for c in gcds:
             its = [unparse(g.iter) for a in c.args for x in ast.walk(a) if isinstance(x, ast.GeneratorExp) for g in x.generators]
             args = [unparse(a) for a in c.args]
-            if its == ["lhs"] and "rhs_const" in args:
+            lhs_n, _rhs_n, rc_n = _flat_operands(f.node)
+            if its == [lhs_n] and rc_n in args:
                 r3.ok(f.fq + ":gcd", f"{f.loc} gcd over every entry of lhs and the divisor")
             else:
                 r3.fail(f.fq + ":gcd", Finding("C26.R3", f.fq, "gcd-partial-row", f"`{unparse(c)[:80]}` ranges over {its} instead of the whole flattened row: dividing the constant term by a factor that does not divide it changes the value of a ceildiv / mod", f"{AE}:{c.lineno}"))
@@ -331,8 +347,9 @@ def check(idx: Index, rep: Report, tier: str) -> str:
     # (new local column / existing local column)
     f = idx.func(AE, "SimpleAffineExprFlattener.visit_mod_expr")
     mcfg = CFG(f.node)
-    ins = [c for c in calls_in(f.node) if call_attr(c) == "insert" and len(c.args) == 2 and unparse(c.func.value) == "lhs"]  # type: ignore[attr-defined]
-    augs = [s_ for s_ in walk_local(f.node) if isinstance(s_, ast.AugAssign) and isinstance(s_.target, ast.Subscript) and unparse(s_.target.value) == "lhs"]
+    lhs_n, _rhs_n, rc_n = _flat_operands(f.node)
+    ins = [c for c in calls_in(f.node) if call_attr(c) == "insert" and len(c.args) == 2 and unparse(c.func.value) == lhs_n]  # type: ignore[attr-defined]
+    augs = [s_ for s_ in walk_local(f.node) if isinstance(s_, ast.AugAssign) and isinstance(s_.target, ast.Subscript) and unparse(s_.target.value) == lhs_n]
     if len(ins) != 1 or len(augs) != 1:
         raise AnalysisError(f"{f.fq}: the two places that give the quotient local its coefficient (lhs.insert / lhs[...] -=) were not found")
     from ..polyform import canon as _pc
@@ -423,17 +440,26 @@ def check(idx: Index, rep: Report, tier: str) -> str:
     pb = idx.func(APARSER, "AffineParser._parse_binop_rhs")
     from ..astutil import norm_facts as _nf6, text_facts as _tf6
 
-    rhs_stores = [n for n in walk_local(pb.node) if isinstance(n, ast.Assign) and len(n.targets) == 1 and unparse(n.targets[0]) == "rhs"]
+    # locals by role: the right operand (bound to _parse_primary), the precedence of the current operator (first read of
+    # _get_token_precedence) and of the next one (second read)
+    prim = [n for n in walk_local(pb.node) if isinstance(n, ast.Assign) and len(n.targets) == 1 and isinstance(n.targets[0], ast.Name) and isinstance(n.value, ast.Call) and unparse(n.value.func) == "self._parse_primary"]
+    precs = sorted([n for n in walk_local(pb.node) if isinstance(n, ast.Assign) and len(n.targets) == 1 and isinstance(n.targets[0], ast.Name) and unparse(n.value) == "self._get_token_precedence()"], key=lambda n: n.lineno)
+    prim.sort(key=lambda n: n.lineno)
+    if not prim or not precs:
+        raise AnalysisError(f"{pb.fq}: right operand / operator precedence not found ({len(prim)} _parse_primary bindings, {len(precs)} precedence reads)")
+    rhs_n, tok_n = prim[0].targets[0].id, precs[0].targets[0].id
+    next_n = precs[1].targets[0].id if len(precs) > 1 else "self\\._get_token_precedence\\(\\)"
+    rhs_stores = [n for n in walk_local(pb.node) if isinstance(n, ast.Assign) and len(n.targets) == 1 and unparse(n.targets[0]) == rhs_n]
     tighter = []
     for n in rhs_stores:
         facts = _nf6(_tf6(pb.node, n))
-        if any(re.fullmatch(r"tok_prec < .+", t_) and p_ for t_, p_ in facts) or any(re.fullmatch(r".+ > tok_prec", t_) and p_ for t_, p_ in facts):
+        if any(re.fullmatch(rf"{tok_n} < .+", t_) and p_ for t_, p_ in facts) or any(re.fullmatch(rf".+ > {tok_n}", t_) and p_ for t_, p_ in facts):
             tighter.append(n)
     if not tighter:
         raise AnalysisError(f"{pb.fq}: the step taken when the next operator binds tighter was not found")
     for n in tighter:
         v = n.value
-        rec = isinstance(v, ast.Call) and unparse(v.func) == "self._parse_binop_rhs" and len(v.args) >= 2 and unparse(v.args[0]) == "rhs" and re.fullmatch(r"tok_prec \+ 1|1 \+ tok_prec|next_prec", unparse(v.args[1]))
+        rec = isinstance(v, ast.Call) and unparse(v.func) == "self._parse_binop_rhs" and len(v.args) >= 2 and unparse(v.args[0]) == rhs_n and re.fullmatch(rf"{tok_n} \+ 1|1 \+ {tok_n}|{next_n}", unparse(v.args[1]))
         if rec:
             r6.ok(pb.fq, f"{pb.loc} `{unparse(n)[:70]}`")
         elif isinstance(v, ast.Call) and call_attr(v) in ("_create_binop_expr",):
